@@ -10,20 +10,47 @@ abbrev Res := Chan × Bytes × List Out
 
 instance (c : Chan) : Decidable (live c) := by unfold live; exact inferInstance
 
+/-- channels that behave alike from here on: equal, or — in raw mode, while a body is being
+    received — holding chunked decoders that differ in the dead `length` attribute only (`lenEq`) -/
+def chanRel (c1 c2 : Chan) : Prop :=
+  c1 = c2 ∨ (c1.lineMode = false ∧ c1.handling = false ∧
+    ∃ a b, c1.decoder = .chunked a ∧ c2 = { c1 with decoder := .chunked b } ∧ lenEq a b)
+
+theorem chanRel.refl (c : Chan) : chanRel c c := Or.inl rfl
+
+theorem chanRel.live {c1 c2 : Chan} (h : chanRel c1 c2) : live c1 ↔ live c2 := by
+  rcases h with h | ⟨_, _, a, b, _, h2, _⟩
+  · rw [h]
+  · rw [h2]; exact Iff.rfl
+
+theorem chanRel.trans {c1 c2 c3 : Chan} (h : chanRel c1 c2) (h' : chanRel c2 c3) : chanRel c1 c3 := by
+  rcases h with h | ⟨m1, m2, a, b, h1, h2, h3⟩
+  · subst h; exact h'
+  · rcases h' with h' | ⟨_, _, a', b', g1, g2, g3⟩
+    · subst h'; exact Or.inr ⟨m1, m2, a, b, h1, h2, h3⟩
+    · have hb : a' = b := by
+        rw [h2] at g1
+        simp only [Decoder.chunked.injEq] at g1
+        exact g1.symm
+      subst hb
+      refine Or.inr ⟨m1, m2, a, b', h1, ?_, h3.trans g3⟩
+      rw [g2, h2]
+
 /-- `x` (one run) agrees with `y` (another run of the same stream): same closing, same exception,
-    same outputs apart from producer calls, and — unless stopped — the very same channel and buffer -/
+    same outputs apart from producer calls, and — unless stopped — the same buffer and the same
+    channel (up to `chanRel`) -/
 def Agree (x y : Res) : Prop :=
   x.1.closed = y.1.closed ∧ x.1.raised = y.1.raised ∧ core x.2.2 = core y.2.2 ∧
-  (live y.1 → x.1 = y.1 ∧ x.2.1 = y.2.1)
+  (live y.1 → chanRel x.1 y.1 ∧ x.2.1 = y.2.1)
 
-theorem Agree.refl (x : Res) : Agree x x := ⟨rfl, rfl, rfl, fun _ => ⟨rfl, rfl⟩⟩
+theorem Agree.refl (x : Res) : Agree x x := ⟨rfl, rfl, rfl, fun _ => ⟨chanRel.refl _, rfl⟩⟩
 
 theorem Agree.trans {x y z : Res} (h1 : Agree x y) (h2 : Agree y z) : Agree x z := by
   obtain ⟨a1, a2, a3, a4⟩ := h1
   obtain ⟨b1, b2, b3, b4⟩ := h2
   refine ⟨a1.trans b1, a2.trans b2, a3.trans b3, fun hl => ?_⟩
   obtain ⟨e1, e2⟩ := b4 hl
-  have : live y.1 := by rw [e1]; exact hl
+  have : live y.1 := e1.live.mpr hl
   obtain ⟨f1, f2⟩ := a4 this
   exact ⟨f1.trans e1, f2.trans e2⟩
 
